@@ -125,6 +125,17 @@ PROPS = {
           'Non-trivial: the failing call index was actually reached.',
           nbatch=(16, 16), timeout=(900, 3400),
           must_observe=['persistent_failures_reported', 'one_shot_failures_recovered', 'sessions_reused_after_failure']),
+ 'C13': P('fault_enumeration',
+          'cases = (executor, Cache|CachePartial, position of the cache operator in {head, middle, before a shuffle, after a shuffle, under a Head}, '
+          'shard count 1..3 (quick) / 1..4 (thorough), subset of shard files present before the second run (all subsets), fault plan). Fault plans: '
+          'none; one fault at file-operation ordinal k of the write-through (k over the fault-free trace of the same program, quick: every 3rd/7th), '
+          'optionally as a short write; the 1st/2nd Create or Close; every Write from ordinal k on failing persistently (k over the trace, so that no '
+          'retry repairs what a failed attempt left); the source function failing at call 0/1/3. File operations are observed and faulted through a '
+          'base/file implementation ("vfault") wrapped around the local one. Oracle: rows with cache == reference rows; after any run every shard file '
+          'that exists (which a later NewFileShardCache accepts) decodes to the complete reference shard; in the second run the source function (which '
+          'knows its shard) is invoked for a shard iff that shard is not served from cache (Cache: iff not all files present); ReadCache yields the '
+          'cached relation. Non-trivial: a file was written or read / the fault fired.',
+          nbatch=(16, 16), must_observe=['cache_files_inspected', 'file_faults_fired', 'cached_shards_skipped', 'uncached_shards_recomputed', 'readcache_runs']),
 }
 
 META = {
@@ -201,4 +212,10 @@ META = {
     note='Which of the three reduce-combiner sites a given call index hits depends on the executor; first/boundary/last indices cover the '
          'task-local table and the consumer-side merge, machine-combiner sessions the shared buffer.',
     technique='fault injection in user callbacks with outcome, crash and invocation-count monitors'),
+ 'C13': dict(
+    text='Fault enumeration over the file operations of the cache write-through, observed and injected at the base/file layer, combined with a '
+         'two-run protocol (all subsets of pre-existing shard files) that checks transparency and skipped recomputation per shard.',
+    note='Shard files are judged by decoding them as the cache reader does (zstd + row codec); temp files that were never committed are not '
+         'cache files. The fault-free trace defines the ordinal space; runs with a fault that never fired are counted, not judged.',
+    technique='fault injection at the file layer with complete-or-absent and per-shard recomputation oracles'),
 }
